@@ -5,7 +5,7 @@ package main
 // Rule: in the named function, every call whose error result is bound and
 // tested cuts the protected effect off on failure: once the edges on which
 // that error is nil are removed, the effect (a success return, or a named
-// call) cannot be reached from the call without executing the call again.
+// call) cannot be reached from the call.
 // This is what makes "the step is performed and checked" mean anything: a
 // verification whose error is logged and forgotten verifies nothing.
 //
